@@ -10,6 +10,7 @@
 #include <dlfcn.h>
 #include <errno.h>
 #include <fcntl.h>
+#include <stdarg.h>
 #include <stdint.h>
 #include <stdio.h>
 #include <stdlib.h>
@@ -345,6 +346,30 @@ int isatty(int fd) {
   if (v >= 0) { if (!v) errno = ENOTTY; return (int)v; }
   return real(fd);
 }
+// the size of the terminal window, for a compiler that starts to format its diagnostics to it: with the `tty` identity (see
+// isatty above) every window-size query is answered from the seed, whatever descriptor it is about
+#include <sys/ioctl.h>
+int ioctl(int fd, unsigned long req, ...) {
+  static int (*real)(int, unsigned long, ...);
+  if (!real) real = dlsym(RTLD_NEXT, "ioctl");
+  va_list ap;
+  va_start(ap, req);
+  void *arg = va_arg(ap, void *);
+  va_end(ap);
+  if (req == TIOCGWINSZ && arg) {
+    long tty = ids_field(1), v = ids_field(2);
+    if (tty > 0 && v >= 0) {
+      struct winsize *ws = arg;
+      ws->ws_row = 20 + v % 50;
+      ws->ws_col = 40 + v % 260;
+      ws->ws_xpixel = ws->ws_ypixel = 0;
+      return 0;
+    }
+    if (tty == 0) { errno = ENOTTY; return -1; }
+  }
+  return real(fd, req, arg);
+}
+
 int gethostname(char *name, size_t len) {
   static int (*real)(char *, size_t);
   if (!real) real = dlsym(RTLD_NEXT, "gethostname");
